@@ -82,7 +82,7 @@ PutsOk(C, L, M, items) ==
           LET v == LastVal(items, k)
               h == HitLayer(M, k)
           IN /\ \/ h > 0 /\ M[h][k] = v
-                \/ h = 0 /\ k # lastk /\ \E i \in LayersOf(L) : press(i)
+                \/ k # lastk /\ \E i \in LayersOf(L) : press(i)   \* evicted again by a later item of the batch
              /\ \A i \in LayersOf(L) : M[i][k] \in {v, None, L[i][k]}
      /\ \A i \in LayersOf(L) : \A k2 \in DOMAIN L[i] \ ks :
           M[i][k2] = L[i][k2] \/ (M[i][k2] = None /\ press(i))
@@ -181,9 +181,13 @@ Restore(M, L, B) == [i \in LayersOf(M) |-> [k \in DOMAIN M[i] |-> IF <<i, k>> \i
 TickOk(g, M)     == \A p \in g.mustx : M[p[1]][p[2]] = None
 
 \* The judge.  "ok" | "F12b" | "viol"
+SetKey(M, W, k, v) == [i \in LayersOf(M) |-> [x \in DOMAIN M[i] |-> IF i \in W /\ x = k THEN v ELSE M[i][x]]]
 Verdict(C, g, L, e, M, KD) ==
   LET X == {p \in g.mayx : L[p[1]][p[2]] # None /\ M[p[1]][p[2]] = None}
-      layer == \E A \in SUBSET X : \E B \in SUBSET (X \ A) : LayerOk(C, g, Drop(L, A), e, Restore(M, L, B))
+      \* an entry written with a short TTL by this very call may have expired before the projection was read
+      Y == IF e.op = "put_ttl" /\ e.ttl = "short" THEN {i \in LayersOf(M) : M[i][e.k] = None} ELSE {}
+      layer == \E A \in SUBSET X : \E B \in SUBSET (X \ A) : \E W \in SUBSET Y :
+                  LayerOk(C, g, Drop(L, A), e, IF W = {} THEN Restore(M, L, B) ELSE SetKey(Restore(M, L, B), W, e.k, e.v))
   IN IF ~layer \/ (e.op = "tick" /\ ~TickOk(g, M)) THEN "viol"
      ELSE IF CohOk(g, e) THEN "ok"
      ELSE IF "F12b" \in KD /\ StaleServed(g, e) THEN "F12b"
